@@ -71,9 +71,10 @@ static int deliver(char *it)
 	if (sl)
 		res = atoi(sl + 1);
 	n = (int)unhex(it, dgram);
-	if (mode >= 1 && n >= 2 && lastq_len >= 2) {
-		dgram[0] = lastq[0];
-		dgram[1] = lastq[1];
+	if (mode >= 1 && n >= 2) {
+		/* chunkid is the id of the latest query (1000 before the first one) */
+		dgram[0] = (unsigned char)(chunkid >> 8);
+		dgram[1] = (unsigned char)(chunkid & 0xff);
 	}
 	if (mode == 2 && n >= 14 && lastq_len >= 14 && dgram[12] >= 1 && dgram[12] < 64)
 		dgram[13] = lastq[13];
